@@ -29,12 +29,32 @@ def sh(cmd, **kw):
 # ---------------------------------------------------------------------------------------------
 # build
 # ---------------------------------------------------------------------------------------------
-def spec_hash(extra=""):
+def module_closure(module):
+    """The modules a model depends on: transitive closure of EXTENDS / INSTANCE over spec/*.tla."""
+    seen, todo = set(), [module]
+    while todo:
+        m = todo.pop()
+        f = os.path.join(SPEC, m + ".tla")
+        if m in seen or not os.path.exists(f):
+            continue
+        seen.add(m)
+        txt = open(f).read()
+        for line in txt.splitlines():
+            mm = re.match(r"\s*(EXTENDS|INSTANCE)\s+(.*)", line)
+            if mm:
+                for name in re.split(r"[,\s]+", mm.group(2)):
+                    name = name.strip()
+                    if name and name not in ("WITH",):
+                        todo.append(name)
+    return sorted(seen)
+
+
+def spec_hash(extra="", module=None):
     h = hashlib.sha256()
-    for f in sorted(os.listdir(SPEC)):
-        if f.endswith(".tla"):
-            h.update(f.encode())
-            h.update(open(os.path.join(SPEC, f), "rb").read())
+    files = [m + ".tla" for m in module_closure(module)] if module else sorted(f for f in os.listdir(SPEC) if f.endswith(".tla"))
+    for f in files:
+        h.update(f.encode())
+        h.update(open(os.path.join(SPEC, f), "rb").read())
     h.update(extra.encode())
     return h.hexdigest()[:20]
 
@@ -42,7 +62,7 @@ def spec_hash(extra=""):
 def ensure_catalog():
     """Regenerate harness/src/catalog.rs from the specification's catalog when the spec changed."""
     stamp = os.path.join(WORK, "catalog.stamp")
-    key = spec_hash("catalog") + hashlib.sha256(open(os.path.join(HARNESS, "gen.py"), "rb").read()).hexdigest()[:8]
+    key = spec_hash("catalog", "MCLayout") + hashlib.sha256(open(os.path.join(HARNESS, "gen.py"), "rb").read()).hexdigest()[:8]
     dst = os.path.join(HARNESS, "src", "catalog.rs")
     if os.path.exists(stamp) and open(stamp).read() == key and os.path.exists(dst):
         return
@@ -86,7 +106,7 @@ def materialize_cfg(stp):
 def run_tlc(module, cfg, use_cache=True, extra_args=(), env_extra=None, timeout=1500, workers=None, tag=None, cfg_path=None):
     os.makedirs(os.path.join(WORK, "tlc"), exist_ok=True)
     cfg_path = cfg_path or os.path.join(SPEC, cfg)
-    key = spec_hash(open(cfg_path).read() + module + " ".join(extra_args) + json.dumps(env_extra or {}, sort_keys=True))
+    key = spec_hash(open(cfg_path).read() + module + " ".join(extra_args) + json.dumps(env_extra or {}, sort_keys=True), module)
     name = tag or (module + "." + os.path.splitext(cfg)[0])
     out = os.path.join(WORK, "tlc", "%s.%s.out" % (name, key))
     meta = out + ".json"
